@@ -99,6 +99,46 @@ def reference_shift(P, d):
     return np.fft.ifft2(np.fft.fft2(P) * np.exp(-2j * np.pi * (np.fft.fftfreq(nx)[:, None] * d[0] + np.fft.fftfreq(ny)[None] * d[1])))
 
 
+def reconstruct_at_true_solution(c):
+    """run `reconstruct()` of an operator started at the true object and probe; returns per iteration (sse, probe error, object error).
+    The data follow the physical contract, independently of the operator's bookkeeping: at scan position p the object window centred
+    on round(p) is illuminated by the probe shifted by the fractional part of p."""
+    import abtem.reconstruct as rec
+    from abtem.core.energy import energy2wavelength
+
+    Rcls = getattr(rec, c.get("cls", "RegularizedPtychographicOperator"))
+    rs = np.random.default_rng(c["seed"])
+    energy, n, samp = 80e3, c["roi"], 0.2
+    dk = energy2wavelength(energy) * 1e3 / samp / n
+    g = np.exp(-((np.arange(n)[:, None] - n / 2) ** 2 + (np.arange(n)[None] - n / 2) ** 2) / (2 * (n / 5) ** 2)).astype(complex)
+    P_true = g * np.exp(1j * 0.3 * rs.normal(size=(n, n))) + 0.05
+    steps = np.array([[i * c["step"], j * c["step"] * 1.1] for i in range(4) for j in range(4)])
+    op = Rcls(np.ones((len(steps), n, n)), energy=energy, positions=steps.copy(), probes=P_true.copy(), angular_sampling=(dk, dk), semiangle_cutoff=20.0)
+    op.preprocess()
+    obj_shape = op._objects.shape
+    O_true = np.exp(1j * 0.5 * rs.normal(size=obj_shape))
+    D2 = []
+    for p in np.asarray(op._positions_px):
+        ctr = [int(round(v)) for v in p]
+        f = [v - round(v) for v in p]
+        ix = np.ix_((np.arange(n) + ctr[0] - n // 2) % obj_shape[0], (np.arange(n) + ctr[1] - n // 2) % obj_shape[1])
+        D2.append(np.abs(np.fft.fft2(O_true[ix] * reference_shift(P_true, f))) ** 2)
+    D2 = np.fft.fftshift(np.array(D2), axes=(-2, -1))
+    order = None
+    if c.get("dead") is not None:  # one empty diffraction pattern, placed where the first sweep visits it first / last
+        np.random.seed(c["rseed"]); order = np.arange(len(steps)); np.random.shuffle(order)
+        D2[int(order[0] if c["dead"] == "first" else order[-1])] = 0.0
+    op = Rcls(D2, energy=energy, positions=steps.copy(), objects=O_true.astype(np.complex128).copy(), probes=P_true.copy(), angular_sampling=(dk, dk),
+              semiangle_cutoff=20.0)
+    op.preprocess()
+    objs, probes, positions, sse = op.reconstruct(max_iterations=c["iterations"], fix_com=False, random_seed=c["rseed"], return_iterations=True)
+    out = []
+    for k in range(c["iterations"]):
+        Pk, Ok = np.asarray(probes.array[k]), np.asarray(objs.array[k])
+        out.append([float(sse[k]), float(np.abs(Pk - P_true).max() / np.abs(P_true).max()), float(np.abs(Ok - O_true).max())])
+    return out
+
+
 # ----------------------------------------------------------------------------- generators
 def gen_window(ctx):
     rng = ctx.rng
@@ -148,7 +188,11 @@ class C28(Property):
         "hand model `Ptycho.wrappedWindow/scanPositions/roundHalfEven` of numpy round, arange, meshgrid/ravel, ptp, column minimum "
         "(tied by correspondence; fingerprints reported); cos/sin of the rotation angle enter the model as exact rationals of the float values",
     ]
-    assumptions = ["sampling != 0 and array extents > 0 (numpy yields inf/nan or warnings there, not exceptions)",
+    assumptions = ["unregularised updates (alpha = 0 or beta = 0) are validated for well-conditioned probes/objects only (|P|, |O| of order one): a probe "
+                   "pixel of 1e-13 with alpha = 0 amplifies the rounding noise of psi' - psi to 3e-3; nearly dark pixels are generated with alpha, beta > 0",
+                   "an all-zero diffraction pattern gives sse = NaN (0/0) in _fourier_projection and a vanishing summed modal intensity gives NaN in the "
+                   "mixed-state projection; both are the guards of zero_error / mixed_projection_total_intensity and are asserted as such by the oracle",
+                   "sampling != 0 and array extents > 0 (numpy yields inf/nan or warnings there, not exceptions)",
                    "probe window not larger than the object array for the update contract (repeated fancy indices drop updates)"]
     rule = ("random windows (inside / half-integer ties / far outside / larger than the array), random explicit (J=0..6) and raster "
             "scan position requests with dyadic coordinates, power-of-two samplings, optional rotation and padding; random complex "
@@ -223,17 +267,22 @@ class C28(Property):
             out, sse = R()._fourier_projection(psi, D, c["sse0"])
             F0, F1 = np.fft.fft2(psi), np.fft.fft2(out)
             tol = 1e-9 * max(1.0, float(D.max()), float(np.abs(F0).max()))
-            if np.abs(np.abs(F1) - D).max() > tol:
+            if not (np.abs(np.abs(F1) - D).max() <= tol):
                 ctx.violation("fourier-projection-amplitude", c, {"max_abs_diff": float(np.abs(np.abs(F1) - D).max())})
             mask = (D > 1e-6 * c["scale"]) & (np.abs(F0) > 1e-6)
             if mask.any():
                 dphi = np.angle(F1[mask] * np.conj(F0[mask]))
-                if np.abs(dphi).max() > 1e-7:
+                if not (np.abs(dphi).max() <= 1e-7):
                     ctx.violation("fourier-projection-phase", c, {"max_phase_diff": float(np.abs(dphi).max())})
             out2, _ = R()._fourier_projection(out, D, 0.0)
-            if np.abs(out2 - out).max() > tol:
+            if not (np.abs(out2 - out).max() <= tol):
                 ctx.violation("fourier-projection-idempotent", c, {"max_abs_diff": float(np.abs(out2 - out).max())})
             denom = float(np.sum(D ** 2))
+            if denom == 0:
+                # documented behaviour for an all-zero pattern: 0/0 (`reconstruct` skips such patterns); the theorem carries the guard sum(D^2) != 0
+                ctx.count("projection:all-zero-pattern")
+                if np.isfinite(sse):  # inf (or nan for a zero exit wave): division by sum(D^2) = 0
+                    ctx.violation("fourier-projection-sse-finite-for-empty-pattern", c, {"sse": float(sse)})
             if denom > 0:
                 exp_sse = c["sse0"] + float(np.mean((np.abs(F0) - D) ** 2)) / denom
                 if not close(sse, exp_sse, rel=1e-9, abs_=1e-12):
@@ -244,18 +293,35 @@ class C28(Property):
             k, (n, m) = c["modes"], c["shape"]
             psi = rs.normal(size=(k, n, m)) + 1j * rs.normal(size=(k, n, m))
             D = np.abs(rs.normal(size=(n, m))) * c["scale"]
+            if c.get("kill"):  # one Fourier coefficient that vanishes in every mode: current intensity 0 there
+                f = np.fft.fft2(psi); f[:, 0, 0] = 0.0; psi = np.fft.ifft2(f)
             out, sse = M._fourier_projection(psi, D, 0.0)
+            if c.get("kill"):
+                # hypothesis of mixed_projection_total_intensity violated (norm = 0): the code divides by zero and the NaN spreads through ifft2
+                ctx.count("mixed-projection:zero-intensity-coefficient")
+                if np.isfinite(out).all() and D[0, 0] > 0:
+                    ctx.violation("mixed-projection-finite-at-zero-intensity-but-amplitude-not-imposed", c, {}) if \
+                        abs(np.sqrt((np.abs(np.fft.fft2(out)) ** 2).sum(axis=0))[0, 0] - D[0, 0]) > 1e-9 else None
+                return
             F0, F1 = np.fft.fft2(psi), np.fft.fft2(out)
             tol = 1e-9 * max(1.0, float(D.max()))
             total = np.sqrt((np.abs(F1) ** 2).sum(axis=0))
-            if np.abs(total - D).max() > tol:
+            if not (np.abs(total - D).max() <= tol):
                 ctx.violation("mixed-projection-total-intensity", c, {"max_abs_diff": float(np.abs(total - D).max())})
             mask = (np.abs(F0) > 1e-6) & (D[None] > 1e-6 * c["scale"])
-            if mask.any() and np.abs(np.angle(F1[mask] * np.conj(F0[mask]))).max() > 1e-7:
+            if mask.any() and not (np.abs(np.angle(F1[mask] * np.conj(F0[mask]))).max() <= 1e-7):
                 ctx.violation("mixed-projection-phase", c, {})
             out2, _ = M._fourier_projection(out, D, 0.0)
-            if np.abs(out2 - out).max() > tol:
+            if not (np.abs(out2 - out).max() <= tol):
                 ctx.violation("mixed-projection-idempotent", c, {"max_abs_diff": float(np.abs(out2 - out).max())})
+        elif kind == "reconstruct":
+            res = reconstruct_at_true_solution(c)
+            ctx.count(f"reconstruct:roi={'odd' if c['roi'] % 2 else 'even'}:dead={c.get('dead')}")
+            for k, (sse, dp, do) in enumerate(res):
+                # started at the true object and probe, every sweep must leave both unchanged and report zero error (complex64 shift kernels: 1e-6)
+                if not (sse <= 1e-10 and dp <= 1e-5 and do <= 1e-5):
+                    key = "reconstruct-true-solution-drifts" + ("-with-skipped-pattern-visited-" + c["dead"] if c.get("dead") else "-odd-roi" if c["roi"] % 2 else "")
+                    ctx.violation(key, c, {"iteration": k, "sse": sse, "probe_error": dp, "object_error": do}); return
         elif kind == "overlap-path":
             (sx, sy), (nx, ny) = c["object_shape"], c["probe_shape"]
             obj = np.exp(1j * rs.normal(size=(sx, sy)))
@@ -269,35 +335,37 @@ class C28(Property):
                 probes, exit_wave = R()._overlap_projection(obj, probes, pos, old)
                 # after any path the probe sits at the fractional part of the current position (relative to the start)
                 ref = reference_shift(probe0, fr(pos) - fr(np.array(c["path"][0], dtype=float)))
-                if np.abs(probes - ref).max() > 1e-5 * max(1.0, np.abs(ref).max()):
+                if not (np.abs(probes - ref).max() <= 1e-5 * max(1.0, np.abs(ref).max())):
                     ctx.violation("overlap-probe-not-at-fractional-position", c, {"position": pos.tolist(), "old_position": old.tolist(),
                                                                                 "max_abs_diff": float(np.abs(probes - ref).max())})
                     return
                 idx = _wrapped_indices_2D_window(pos, probes.shape, obj.shape)
-                if np.abs(exit_wave - obj[idx] * probes).max() > 1e-12:
+                if not (np.abs(exit_wave - obj[idx] * probes).max() <= 1e-12):
                     ctx.violation("overlap-projection-not-object-times-probe", c, {"position": pos.tolist()}); return
                 old = pos
         elif kind == "true-solution":
             (sx, sy), (nx, ny) = c["object_shape"], c["probe_shape"]
             obj = np.exp(1j * rs.normal(size=(sx, sy))) * (0.5 + rs.random((sx, sy)))
             probe = rs.normal(size=(nx, ny)) + 1j * rs.normal(size=(nx, ny))
+            if c["alpha"] > 0 and c["beta"] > 0 and c["seed"] % 3 == 0:
+                probe[0, 0] = 1e-13  # a nearly dark probe pixel: harmless with regularisation (alpha > 0); alpha = 0 is ill-conditioned there
             pos = np.array(c["position"], dtype=float)
             old = np.array(c["old_position"], dtype=float)
             probes, exit_wave = R()._overlap_projection(obj, probe, pos, old)
             from abtem.reconstruct import _wrapped_indices_2D_window
 
             idx = _wrapped_indices_2D_window(pos, probes.shape, obj.shape)
-            if np.abs(exit_wave - obj[idx] * probes).max() > 1e-12:
+            if not (np.abs(exit_wave - obj[idx] * probes).max() <= 1e-12):
                 ctx.violation("overlap-projection-not-object-times-probe", c, {"max_abs_diff": float(np.abs(exit_wave - obj[idx] * probes).max())})
             D = np.abs(np.fft.fft2(exit_wave))
             mod, sse = R()._fourier_projection(exit_wave, D, 0.0)
-            if abs(sse) > 1e-20:
+            if not (abs(sse) <= 1e-20):
                 ctx.violation("true-solution-nonzero-error", c, {"sse": float(sse)})
             rp = dict(alpha=c["alpha"], beta=c["beta"], object_step_size=c["object_step"], probe_step_size=c["probe_step"])
             o2, p2, pos2 = R()._update_function(obj.copy(), probes.copy(), pos.copy(), exit_wave, mod, D, fix_probe=c["fix_probe"],
                                                 reconstruction_parameters=rp)
             scale = max(1.0, float(np.abs(obj).max()), float(np.abs(probes).max()))
-            if np.abs(o2 - obj).max() > 1e-9 * scale or np.abs(p2 - probes).max() > 1e-9 * scale or np.abs(pos2 - pos).max() > 0:
+            if not (np.abs(o2 - obj).max() <= 1e-9 * scale and np.abs(p2 - probes).max() <= 1e-9 * scale and np.abs(pos2 - pos).max() <= 0):
                 ctx.violation("true-solution-not-fixed-point", c, {"object_change": float(np.abs(o2 - obj).max()),
                                                                   "probe_change": float(np.abs(p2 - probes).max())})
         elif kind == "update":
@@ -326,9 +394,9 @@ class C28(Property):
                         (1 - c["alpha"]) * abs(probe[i, j]) ** 2 + c["alpha"] * pmax)
                     if not c["fix_probe"]:
                         exp_p[i, j] += c["probe_step"] * np.conj(roi[i, j]) * d / ((1 - c["beta"]) * abs(roi[i, j]) ** 2 + c["beta"] * omax)
-            if np.abs(o2 - exp_o).max() > 1e-9 * max(1.0, np.abs(exp_o).max()):
+            if not (np.abs(o2 - exp_o).max() <= 1e-9 * max(1.0, np.abs(exp_o).max())):
                 ctx.violation("update-object-not-rpie-formula", c, {"max_abs_diff": float(np.abs(o2 - exp_o).max())})
-            if np.abs(p2 - exp_p).max() > 1e-9 * max(1.0, np.abs(exp_p).max()):
+            if not (np.abs(p2 - exp_p).max() <= 1e-9 * max(1.0, np.abs(exp_p).max())):
                 ctx.violation("update-probe-not-rpie-formula", c, {"max_abs_diff": float(np.abs(p2 - exp_p).max())})
         elif kind in ("explicit", "raster"):
             got = impl_positions(c)
@@ -349,10 +417,10 @@ class C28(Property):
             if c["angle"] is not None:
                 co, si = math.cos(c["angle"]), math.sin(c["angle"])
                 d = np.stack([d[:, 0] * co + d[:, 1] * si, -d[:, 0] * si + d[:, 1] * co], axis=1)
-            if np.abs((out - out[0]) - d).max() > 1e-9 * max(1.0, np.abs(d).max()):
+            if not (np.abs((out - out[0]) - d).max() <= 1e-9 * max(1.0, np.abs(d).max())):
                 ctx.violation(f"{kind}-positions-order", c, {"expected_displacements": d.tolist(), "observed": (out - out[0]).tolist()})
             pad = np.array(c["pad"] if c["pad"] is not None else [c["roi"][0] / 2, c["roi"][1] / 2], dtype=float)
-            if np.abs(out.min(axis=0) - pad).max() > 1e-9 * max(1.0, np.abs(pad).max()):
+            if not (np.abs(out.min(axis=0) - pad).max() <= 1e-9 * max(1.0, np.abs(pad).max())):
                 ctx.violation(f"{kind}-positions-padding", c, {"min": out.min(axis=0).tolist(), "padding": pad.tolist()})
 
     def gen(self, ctx: Ctx):
@@ -362,13 +430,19 @@ class C28(Property):
             out.append(dict(kind="projection", seed=rng.randint(0, 2**31), shape=[rng.randint(1, 9), rng.randint(1, 9)],
                             scale=rng.choice([1.0, 1e-3, 50.0]), zero_fraction=rng.choice([0.0, 0.2, 1.0]), kill=rng.random() < 0.3,
                             sse0=rng.choice([0.0, 0.25])))
+        # reconstruct() end to end at the true solution: even / odd region of interest (whole / half-pixel padding), whole-pixel and
+        # fractional scan steps, an empty pattern visited first / last
+        recon = [dict(roi=8, step=0.6, dead=None), dict(roi=9, step=0.6, dead=None), dict(roi=9, step=0.5, dead=None),
+                 dict(roi=8, step=0.5, dead="last"), dict(roi=8, step=0.37, dead="first"), dict(roi=9, step=0.37, dead="last")]
+        for r in recon if ctx.thorough else rng.sample(recon[1:], 3) + recon[:1]:
+            out.append(dict(kind="reconstruct", seed=rng.randint(0, 2**31), rseed=rng.randint(0, 50), iterations=2, **r))
         for _ in range(ctx.n(40, 800)):
             sx, sy = rng.randint(4, 12), rng.randint(4, 12)
             out.append(dict(kind="overlap-path", seed=rng.randint(0, 2**31), object_shape=[sx, sy], probe_shape=[rng.randint(2, sx), rng.randint(2, sy)],
                             path=[[rng.randint(-8, 40) / 4, rng.randint(-8, 40) / 4] for _ in range(rng.randint(2, 5))]))
         for _ in range(ctx.n(20, 400)):
             out.append(dict(kind="mixed-projection", seed=rng.randint(0, 2**31), modes=rng.randint(1, 4), shape=[rng.randint(1, 8), rng.randint(1, 8)],
-                            scale=rng.choice([1.0, 1e-3, 50.0])))
+                            scale=rng.choice([1.0, 1e-3, 50.0]), kill=rng.random() < 0.2))
         for k in range(ctx.n(120, 2400)):
             sx, sy = rng.randint(3, 12), rng.randint(3, 12)
             nx, ny = rng.randint(1, sx), rng.randint(1, sy)
